@@ -69,6 +69,24 @@ def _err_payload_of(t, callee_names):
 
 def _provenance(lib, ev, body, s, v, fields):
     if v == "QuickXmlError":
+        if ev.ok and body.kind == "closure" and ev.shape.get("map_err") is not None:
+            # map_err(|e| QuickXmlError(reader.buffer_position(), e)) applied to the reader call's Result
+            me = ev.shape["map_err"]
+            clo = arg_ty(ev.body, me.node["args"][1]).get("closure")
+            if clo != body.name:
+                return False, "QuickXmlError constructed in a closure that is not the map_err of the reader call"
+            pos = strip(fields[0])
+            if not (pos[0] == "call" and pos[1] == "quick_xml::Reader::buffer_position"):
+                return False, "position field is %s, not reader.buffer_position()" % term_s(pos)
+            cap = strip(term_of(ev.body, me.node["args"][1]))
+            rd = strip(term_of(ev.body, ev.read.node["args"][0]))
+            cap_ok = cap[0] == "agg" and any(mir.same_place_term(x, rd) for x in cap[3].values()) and \
+                any(st[0] == "proj" and st[1] == ("arg", 1) for st in mir.subterms(pos[2][0]))
+            if not cap_ok:
+                return False, "buffer_position() is not read from the captured reader of the failing call"
+            if strip(fields[1]) != ("arg", 2):
+                return False, "error field is not the error passed to map_err"
+            return True, "map_err(|e| (reader.buffer_position(), e)) on the Result of the same read_event_into call"
         if not ev.ok or body is not ev.body:
             return False, "QuickXmlError constructed outside the event loop body"
         pos = strip(fields[0])
@@ -80,7 +98,7 @@ def _provenance(lib, ev, body, s, v, fields):
         err = _err_payload_of(fields[1], (cname(ev.read.node),))
         if err is None or err[3] != ev.read:
             return False, "error field is %s, not the Err payload of the reader call" % term_s(strip(fields[1]))[:80]
-        errb = mir.variant_target(ev.sw_result, body, "Err")
+        errb = ev.err_block
         if errb is None or s.bb not in body.reach_from(errb, avoid={ev.header}):
             return False, "constructed outside the Err arm of the reader call"
         if pos[3].bb not in body.reach_from(errb, avoid={ev.header}):
@@ -109,6 +127,28 @@ def _provenance(lib, ev, body, s, v, fields):
             src = strip(term_of(body, sw["place"]))
             if src[0] == "call" and (src[1] in ("core::slice::first", "element::Element::remove_child", "element::Element::get_child")):
                 return True, "only on the None outcome of `%s` after the event loop returned" % src[1].split("::")[-1]
+        # or: this body is a pure error constructor used only as `ok_or_else(<this fn>)` / `ok_or(<this fn>())` on such an Option
+        uses = []
+        for b2 in lib.real_bodies():
+            for s2 in b2.sites():
+                for o in mir.site_operands(s2):
+                    cst = o.get("const")
+                    if cst and cst["ty"].get("fndef") == body.name:
+                        uses.append((b2, s2))
+                if s2.si is None and s2.node["k"] == "call" and s2.node["callee"].get("path") == body.name:
+                    uses.append((b2, s2))
+        good = bool(uses) and len(list(body.calls())) <= 3
+        for (b2, s2) in uses:
+            if not (s2.si is None and s2.node["k"] == "call" and cname(s2.node) in ("std::option::Option::ok_or_else", "std::option::Option::ok_or")):
+                good = False
+                continue
+            src = b2.origins(s2.node["args"][0], transparent=lambda n: cname(n) in ("std::option::Option::map", "std::option::Option::cloned"))
+            if not any(o[0] == "call" and (cname(o[1].node) in ("core::slice::first",) or cname(o[1].node).endswith("Element::remove_child")) for o in src):
+                good = False
+            if ev.ok and b2 is ev.body:
+                good = False
+        if good:
+            return True, "error constructor used only to turn the None of first()/remove_child into the no-root error (ok_or_else)"
         return False, "ParsingError is not confined to the no-root outcome (None of first()/remove_child)"
     return False, "unclassified error constructor ParserError::%s" % v
 
